@@ -11,7 +11,9 @@ ASCII_KEYS = ['a', 'b', 'c', 'ab', 'a_b', 'a-b', 'A', 'z9', 'k y', '', 'type', '
               'x__y', '_a', 'a.b', ' a', 'a ', 'self', 'Self', 'fooBar2Baz', 'ALLCAPS', 'a1B2', '{', 'fn',
               'array of maps', 'bool_true', 'Str', 'id', 'ID', 'userId', 'user_id', 'a\\nb', '_', '__', 'gen']
 NONASCII_KEYS = ['é', '日本', 'straße', 'ΑΒγ', 'á']
-IDENT_KEYS = ['a', 'b', 'c', 'ab', 'a_b', 'z9', 'id', 'user_id', 'bool_true', 'x1', 'name', 'value']
+IDENT_KEYS = ['a', 'b', 'c', 'ab', 'a_b', 'z9', 'id', 'user_id', 'bool_true', 'x1', 'name', 'value',
+              # weak / contextual keywords: legal field names, must be left alone
+              'raw', 'safe', 'union', 'auto', 'default', 'macro_rules']
 
 def printable_key(k):
     b = k.encode() if isinstance(k, str) else bytes(k)
@@ -57,6 +59,36 @@ def special_shapes():
         ('O', False, (('a', ('O', True, (('b', ('U', True, (Nu, ('O', False, ())))),))),)),
         ('U', False, (('A', False, Nu), ('A', True, Nu), ('T', False, (Nu, S)), o1, ('U', False, (B, Nu)))),
     ]
+    return [norm_sh(s) for s in out]
+
+def good_family():
+    """shapes INSIDE the classes the generator theorems cover (good_names / decodable / c15_class), built
+    systematically: pairwise different leaf objects (different member TYPE lists, because type names hash the
+    member types only) under every container nesting of depth <= 3, with optional flags below the root.
+    Random shapes rarely stay inside the classes (repeated sub-shapes, colliding names), so without this
+    family the oracles would have little to judge; the checks report how many cases are in-class."""
+    Nu, S, B = ('#', False), ('S', False), ('B', False)
+    leaves = [('O', False, (('a', Nu),)), ('O', False, (('a', S),)), ('O', False, (('a', B),)),
+              ('O', False, (('id', Nu), ('name', S))), ('O', False, (('id', Nu), ('raw', B))),
+              ('O', False, (('safe', S), ('union', S))), ('O', False, (('value', ('#', True)),)),
+              ('O', False, (('default', B), ('auto', B), ('macro_rules', Nu))),
+              ('O', False, (('x1', S), ('user_id', ('S', True)))), ('O', False, (('z9', ('A', False, Nu)),))]
+    wraps = [lambda x: x,
+             lambda x: ('A', False, x), lambda x: ('A', False, ('A', False, x)), lambda x: ('A', False, ('A', False, ('A', False, x))),
+             lambda x: ('T', False, (x, S)), lambda x: ('A', False, ('T', False, (Nu, x))), lambda x: ('T', False, (('A', False, x), B)),
+             lambda x: ('T', False, (S, ('T', False, (x, Nu)))),
+             lambda x: ('A', True, x), lambda x: ('A', False, ('A', True, x)), lambda x: ('T', True, (x, S)),
+             lambda x: (x[0], True) + x[2:]]
+    out = []
+    for i, lf in enumerate(leaves):
+        for j, w in enumerate(wraps):
+            inner = w(lf)
+            out.append(('O', False, (('rows', inner), ('n', Nu))))                      # as a member
+            if inner[1] is False:
+                out.append(inner)                                                          # as the root
+            other = leaves[(i + 3) % len(leaves)]
+            out.append(('O', False, (('k', inner), ('m', wraps[(j + 5) % len(wraps)](other)))))   # two different nested items
+            out.append(('A', False, ('O', False, (('p', inner),))))
     return [norm_sh(s) for s in out]
 
 SOURCE_SETS = [
@@ -424,6 +456,7 @@ def gen_pool(ctx, n_rand, keys=None):
     """(shape tuples, provenance): level-1, corner shapes, random deep shapes (mixed key pools),
     and shapes json_shape 0.5.1 infers from real source sets"""
     pool = [(s, "level1") for s in vlib.level1()] + [(s, "special") for s in special_shapes()]
+    pool += [(s, "good-family") for s in good_family()]
     pool += [(s, "random") for s in rand_shapes(ctx.rng, n_rand // 2, keys=keys or ASCII_KEYS)]
     pool += [(s, "random-ident") for s in rand_shapes(ctx.rng, n_rand // 2, keys=IDENT_KEYS)]
     sets = list(SOURCE_SETS) + doc_sources(ctx.rng, max(40, n_rand // 10))
